@@ -143,7 +143,11 @@ func callsOpFuncs(w *World, fn *ssa.Function) bool {
 // inlineHelpers: walk into compiler methods that are neither node evaluators
 // (other than operand wrappers), nor operator functions, nor the predicate.
 func (m *infixModel) inlineHelpers(caller, callee *ssa.Function) bool {
-	if callee.Signature.Recv() == nil && callee.Pkg != nil && callee.Pkg == m.fn.Pkg && callee.Object() != nil && !callee.Object().Exported() && len(callee.Blocks) > 0 {
+	pkg, obj := callee.Pkg, callee.Object()
+	if o := callee.Origin(); o != nil {
+		pkg, obj = o.Pkg, o.Object() // an instance of a generic helper
+	}
+	if callee.Signature.Recv() == nil && pkg != nil && pkg == m.fn.Pkg && obj != nil && !obj.Exported() && len(callee.Blocks) > 0 {
 		return true // plain unexported helper of the evaluator's package (a predicate over the operator, ...)
 	}
 	if !m.w.isCompilerMethod(callee) || m.tables[callee] != nil || callee == m.truthy {
@@ -281,7 +285,7 @@ func c06TablesSSA(r *Run) {
 		complete := true
 		labels := append(append([]string{}, c06Operators...), "\x00no-such-operator")
 		for _, label := range labels {
-			paths, ok := walkPaths(t.fn, m.seedOp(t, label), nil)
+			paths, ok := walkPaths(t.fn, m.seedOp(t, label), m.inlineHelpers)
 			if !ok {
 				complete = false
 			}
